@@ -1,6 +1,7 @@
 // C20 / C05 / C07 / C09: Store::insert_frame (the import path, POST /import) stores whatever it is given.
-// Failing inputs (obligations api.import.pre.*): an Ephemeral frame; an xs.context frame (not registered until reopen);
-// a second frame with an existing id but another topic.
+// Failing inputs (obligations api.import.pre.*): an Ephemeral frame; a second frame with an existing id but another topic.
+// (The third input of the pinned tree - an imported xs.context frame is not registered until reopen - was repaired: see
+// c20_imported_context.rs.)
 use xs::store::{Frame, Store, TTL, ZERO_CONTEXT};
 
 #[test]
@@ -10,16 +11,6 @@ fn import_of_ephemeral_frame_is_not_stored() {
     let mut e = Frame::builder("eph", ZERO_CONTEXT).build(); e.id = scru128::new(); e.ttl = Some(TTL::Ephemeral);
     let _ = store.insert_frame(&e);
     assert!(store.get(&e.id).is_none(), "an ephemeral frame was stored by import");
-}
-
-#[test]
-fn imported_context_is_usable_without_reopen() {
-    let d = tempfile::tempdir().unwrap();
-    let store = Store::new(d.path().to_path_buf());
-    let mut c = Frame::builder("xs.context", ZERO_CONTEXT).build(); c.id = scru128::new();
-    store.insert_frame(&c).unwrap();
-    let r = store.append(Frame::builder("x", c.id).build());
-    assert!(r.is_ok(), "append into an imported context fails until the store is reopened: {:?}", r.err().map(|e| e.to_string()));
 }
 
 #[test]
